@@ -38,7 +38,7 @@ NONTRIVIAL = ["cell"]
 DEADLINE = {"quick": 80, "thorough": 1500}
 WATCHDOG = {"quick": 900, "thorough": 5400}
 
-QUICK_SC = ["ssl3-rsa", "tls10-dhe_rsa", "tls11-ecdhe_ecdsa", "tls12-rsa",
+QUICK_SC = ["ssl3-rsa", "ssl3-ecdhe_rsa-clientauth", "tls10-dhe_rsa", "tls11-ecdhe_ecdsa", "tls12-rsa",
             "tls12-ecdhe_rsa-clientauth", "tls12-dhe_dsa", "tls12-srp_rsa",
             "tls12-dh_anon", "tls12-resume-ticket", "tls12-ecdhe_rsa-npn",
             "tls13-rsa", "tls13-hrr", "tls13-psk_dhe", "tls13-resume-ticket",
@@ -288,7 +288,10 @@ def plan(ctx, sc, role, label):
             if ctx.quick:
                 # sample operators but always keep the bombs
                 always = ("zbomb", "ext_u16=", "psk_", "dertree_empty:bitstr",
-                          "dertree_empty:octstr", "dertree_trunc1:bitstr")
+                          "dertree_empty:octstr", "dertree_trunc1:bitstr",
+                          "ext_empty:51", "ext_empty:43", "ext_empty:10",
+                          "ext_empty:13", "ext_empty:45", "ext_empty:41",
+                          "ext_empty:42", "ext_empty:44")
                 keep = [o for o in ops if o[0].startswith(always)]
                 rest = [o for o in ops if not o[0].startswith(always)]
                 rng.shuffle(rest)
@@ -305,7 +308,9 @@ RECORD_ATTACKS = ["oversize_plain", "len_ffff", "empty_hs", "empty_alert",
                   "empty_ccs", "unknown_type", "ssl2_garbage", "alert_1byte",
                   "alert_3byte", "alert_split", "flood_empty_app",
                   "flood_warning", "flood_ccs", "hs_fragments_1byte",
-                  "app_before_finished", "huge_hs_len_then_stall"]
+                  "app_before_finished", "huge_hs_len_then_stall",
+                  "fatal_alert", "warning_no_certificate",
+                  "close_notify_mid_handshake"]
 
 
 def make_cases(ctx):
@@ -326,7 +331,9 @@ def make_cases(ctx):
             nmsg = len(adv.log)
             for atk in RECORD_ATTACKS:
                 for at in sorted(set([0, 1, max(0, nmsg // 2), nmsg - 1])):
-                    if ctx.quick and at not in (0, nmsg - 1):
+                    if ctx.quick and at not in (0, nmsg - 1) and not (
+                            at == 1 and atk in ("fatal_alert",
+                                                "warning_no_certificate")):
                         continue
                     yield "%s-%s-rec-%s-%d" % (name, role, atk, at), dict(
                         sc=name, role=role, label=label, atk=atk, at=at)
@@ -372,6 +379,15 @@ def record_attack(atk, rng):
             for r in osend(Message(21, bytearray(b"\x02"))):
                 yield r
             for r in osend(Message(21, bytearray(b"\x28"))):
+                yield r
+        elif atk == "fatal_alert":
+            for r in osend(Message(21, bytearray(b"\x02\x28"))):
+                yield r
+        elif atk == "warning_no_certificate":
+            for r in osend(Message(21, bytearray(b"\x01\x29"))):
+                yield r
+        elif atk == "close_notify_mid_handshake":
+            for r in osend(Message(21, bytearray(b"\x01\x00"))):
                 yield r
         elif atk == "flood_empty_app":
             for _ in range(FLOOD[0]):
@@ -451,6 +467,16 @@ def judge(ctx, key, W, R, adv, role, work, budget, peak, sent_bytes):
     if not vic.closed:
         ctx.violation(dict(key, clause="not_closed_after_failure", exc=cls),
                       W, "victim still open after %r" % (e,))
+    # `closed` is already true while a handshake is in progress, so it says
+    # nothing about a failed handshake: the transport does
+    vsock = p.ssock if vrole == "server" else p.csock
+    if vic.closeSocket and not vsock.closed:
+        ctx.violation(dict(key, clause="socket_left_open_after_failure",
+                           exc=cls), W,
+                      "victim raised %r but left its socket open "
+                      "(closeSocket is set)" % (e,))
+    elif vic.closeSocket:
+        ctx.count("socket_closed_after_failure")
     sess = vic.session
     if sess is not None and (sess.resumable or sess.valid()) and \
             not isinstance(e, E.TLSRemoteAlert):
